@@ -252,6 +252,65 @@ fn decode_multi_stateless(stream: &[u8], cuts: &[usize], n: usize) -> Result<Vec
     Err("no packet produced after the whole stream was fed".into())
 }
 
+/// Verdict of the strict reference on one raw input vs the real decoder: (reference class, violation).
+fn judge_raw(inp: &[u8]) -> (&'static str, Option<(String, String)>) {
+    let r = ref_parse(inp);
+    let mut buf = BytesMut::from(inp);
+    let got = RespVec::decode(&mut buf, ());
+    let consumed = inp.len() - buf.len();
+    let shown = if inp.len() > 80 { format!("{:?}..({} bytes)", String::from_utf8_lossy(&inp[..60]), inp.len()) } else { format!("{:?}", String::from_utf8_lossy(inp)) };
+    match (&r, got) {
+        (Ref::Valid(v, n), Ok(Some(g))) => {
+            if &g != v || consumed != *n {
+                ("valid", Some(("raw:valid-input-decoded-differently".into(), format!("{}: expected {:?} ({} bytes) got {:?} ({} bytes)", shown, v, n, g, consumed))))
+            } else {
+                ("valid", None)
+            }
+        }
+        (Ref::Valid(v, _), Ok(None)) => ("valid", Some(("raw:valid-input-not-decoded".into(), format!("{}: expected {:?}, decoder wants more data", shown, v)))),
+        (Ref::Valid(v, _), Err(_)) => ("valid", Some(("raw:valid-input-rejected".into(), format!("{}: expected {:?}, decoder reports protocol error", shown, v)))),
+        (Ref::Incomplete, Ok(None)) => {
+            if consumed != 0 {
+                ("incomplete", Some(("raw:incomplete-input-consumed".into(), format!("{}: consumed {} bytes of an incomplete packet", shown, consumed))))
+            } else {
+                ("incomplete", None)
+            }
+        }
+        (Ref::Incomplete, Ok(Some(g))) => ("incomplete", Some(("raw:incomplete-input-yields-value".into(), format!("{}: incomplete packet decoded as {:?}", shown, g)))),
+        (Ref::Incomplete, Err(_)) => ("incomplete", Some(("raw:incomplete-input-rejected".into(), format!("{}: a prefix of a valid packet is reported as protocol error", shown)))),
+        (Ref::Invalid(why), Ok(Some(g))) => ("invalid", Some((format!("raw:non-resp-accepted:{}", why), format!("{} is not RESP ({}) but decodes as {:?} consuming {} bytes", shown, why, g, consumed)))),
+        (Ref::Invalid(_), _) => ("invalid", None),
+    }
+}
+
+/// Length headers at and beyond the edges of the integer types a decoder may use, at bulk and
+/// array position, alone and followed by data that a wrapped-around length would make "fit".
+fn length_header_family() -> Vec<Vec<u8>> {
+    let nums: Vec<String> = {
+        let mut v: Vec<String> = vec![];
+        for base in [1u128 << 31, 1u128 << 32, 1u128 << 53, 1u128 << 63, 1u128 << 64, 10u128.pow(19), 10u128.pow(20), 1u128 << 127] {
+            for d in [-3i128, -2, -1, 0, 1, 2, 3, 4, 5] {
+                let n = base as i128 + d;
+                v.push(n.to_string());
+                v.push(format!("-{}", n));
+            }
+        }
+        for s in ["0", "1", "3", "-0", "-1", "-2", "+3", "+0", "00", "03", "0000000000000000000000003", "-0000000000000000000001", "1000000000000000000000000000000", "340282366920938463463374607431768211456", "340282366920938463463374607431768211459", "3 ", " 3", "3a", "0x3", "1e1", "٣"] {
+            v.push(s.to_string());
+        }
+        v
+    };
+    let mut out = vec![];
+    for n in &nums {
+        for t in ["$", "*"] {
+            for tail in ["", "\r", "\r\n", "\r\nfoo\r\n", "\r\n$3\r\nfoo\r\n", "\r\n\r\n", "\r\n+OK\r\n:1\r\n"] {
+                out.push(format!("{}{}{}", t, n, tail).into_bytes());
+            }
+        }
+    }
+    out
+}
+
 fn run_c15(cli: &Cli) -> (Value, Vec<Violation>) {
     let thorough = cli.level() >= 1;
     let deep = cli.level() >= 2;
@@ -310,62 +369,89 @@ fn run_c15(cli: &Cli) -> (Value, Vec<Violation>) {
             }
         }
     }
-    for (s, want) in &streams {
-        if s.len() > 64 {
-            continue;
-        }
-        let mut cutsets: Vec<Vec<usize>> = vec![vec![]];
-        for i in 1..s.len() {
-            cutsets.push(vec![i]);
-        }
-        if s.len() <= (if thorough { 48 } else { 24 }) {
-            for i in 1..s.len() {
-                for j in (i + 1)..s.len() {
-                    cutsets.push(vec![i, j]);
+    // split cases are independent: 16 workers, results merged in stream order
+    let streams = std::sync::Arc::new(streams);
+    let per = (streams.len() + 15) / 16;
+    let mut hs = vec![];
+    for w in 0..16 {
+        let streams = streams.clone();
+        hs.push(std::thread::spawn(move || {
+            let lo = (w * per).min(streams.len());
+            let hi = ((w + 1) * per).min(streams.len());
+            let chunk = &streams[lo..hi];
+            let mut n = 0usize;
+            let mut out: Vec<(String, String, Value)> = vec![];
+            let mut push = |key: &str, desc: String, replay: Value| {
+                if out.len() < 50 {
+                    out.push((key.to_string(), desc, replay));
                 }
+            };
+            for (s, want) in chunk {
+            if s.len() > 64 {
+                continue;
             }
-        }
-        if deep && s.len() <= 22 {
+            let mut cutsets: Vec<Vec<usize>> = vec![vec![]];
             for i in 1..s.len() {
-                for j in (i + 1)..s.len() {
-                    for k in (j + 1)..s.len() {
-                        cutsets.push(vec![i, j, k]);
+                cutsets.push(vec![i]);
+            }
+            if s.len() <= (if thorough { 48 } else { 24 }) {
+                for i in 1..s.len() {
+                    for j in (i + 1)..s.len() {
+                        cutsets.push(vec![i, j]);
                     }
                 }
             }
-        }
-        for cuts in &cutsets {
-            n_splits += 1;
-            match decode_all(s, cuts) {
-                Ok((got, rest)) => {
-                    if &got != want || !rest.is_empty() {
-                        add("split:sequence-differs", format!("stream {:?} cuts {:?}: got {:?} rest {:?}", s, cuts, got, rest), json!({"bytes": s, "cuts": cuts}));
+            if deep && s.len() <= 22 {
+                for i in 1..s.len() {
+                    for j in (i + 1)..s.len() {
+                        for k in (j + 1)..s.len() {
+                            cutsets.push(vec![i, j, k]);
+                        }
                     }
                 }
-                Err(e) => add(
-                    if e.contains("None but changed") { "split:none-consumed-bytes" } else if e.contains("re-encodes") || e.contains("consumed length") { "split:forwarded-bytes-modified" } else { "split:decode-error" },
-                    format!("stream {:?} cuts {:?}: {}", s, cuts, e),
-                    json!({"bytes": s, "cuts": cuts}),
-                ),
             }
-            // hint-driven decoders: Single for 1 packet, Multi(n) for n
-            let n = want.len();
-            let r = decode_multi_stateful(s, cuts, if n == 1 { None } else { Some(n) });
-            match r {
-                Ok(got) if &got == want => {}
-                other => add("split:hint-decoder-differs", format!("stream {:?} cuts {:?} hint {}: {:?}", s, cuts, n, other), json!({"bytes": s, "cuts": cuts})),
-            }
-            if n >= 2 {
-                match decode_multi_stateless(s, cuts, n) {
-                    Ok(got) if &got == want => {}
-                    Ok(got) => add("split:stateless-multi-differs", format!("stream {:?} cuts {:?}: {:?}", s, cuts, got), json!({"bytes": s, "cuts": cuts})),
-                    Err(e) => add(
-                        if e.contains("consumed") { "split:stateless-multi-consumes-on-incomplete" } else { "split:stateless-multi-differs" },
-                        format!("stateless OptionalMulti::decode, stream {:?} cuts {:?}: {}", s, cuts, e),
+            for cuts in &cutsets {
+                n += 1;
+                match decode_all(s, cuts) {
+                    Ok((got, rest)) => {
+                        if &got != want || !rest.is_empty() {
+                            push("split:sequence-differs", format!("stream {:?} cuts {:?}: got {:?} rest {:?}", s, cuts, got, rest), json!({"bytes": s, "cuts": cuts}));
+                        }
+                    }
+                    Err(e) => push(
+                        if e.contains("None but changed") { "split:none-consumed-bytes" } else if e.contains("re-encodes") || e.contains("consumed length") { "split:forwarded-bytes-modified" } else { "split:decode-error" },
+                        format!("stream {:?} cuts {:?}: {}", s, cuts, e),
                         json!({"bytes": s, "cuts": cuts}),
                     ),
                 }
+                // hint-driven decoders: Single for 1 packet, Multi(n) for n
+                let n = want.len();
+                let r = decode_multi_stateful(s, cuts, if n == 1 { None } else { Some(n) });
+                match r {
+                    Ok(got) if &got == want => {}
+                    other => push("split:hint-decoder-differs", format!("stream {:?} cuts {:?} hint {}: {:?}", s, cuts, n, other), json!({"bytes": s, "cuts": cuts})),
+                }
+                if n >= 2 {
+                    match decode_multi_stateless(s, cuts, n) {
+                        Ok(got) if &got == want => {}
+                        Ok(got) => push("split:stateless-multi-differs", format!("stream {:?} cuts {:?}: {:?}", s, cuts, got), json!({"bytes": s, "cuts": cuts})),
+                        Err(e) => push(
+                            if e.contains("consumed") { "split:stateless-multi-consumes-on-incomplete" } else { "split:stateless-multi-differs" },
+                            format!("stateless OptionalMulti::decode, stream {:?} cuts {:?}: {}", s, cuts, e),
+                            json!({"bytes": s, "cuts": cuts}),
+                        ),
+                    }
+                }
             }
+        }
+            (n, out)
+        }));
+    }
+    for h in hs {
+        let (n, out) = h.join().expect("split worker");
+        n_splits += n;
+        for (k, d, r) in out {
+            add(&k, d, r);
         }
     }
     // (c) all short byte strings over the framing alphabet
@@ -482,6 +568,17 @@ fn run_c15(cli: &Cli) -> (Value, Vec<Violation>) {
             }
         });
     }
+    // (d) length headers around the integer-type edges
+    let headers = length_header_family();
+    let n_headers = headers.len();
+    for inp in &headers {
+        n_raw += 1;
+        let (class, v) = judge_raw(inp);
+        *verdicts.entry(class).or_default() += 1;
+        if let Some((k, d)) = v {
+            raw_viol.push((k, d, inp.clone()));
+        }
+    }
     for (k, d, inp) in raw_viol {
         add(&k, d, json!({"bytes": inp}));
     }
@@ -492,6 +589,7 @@ fn run_c15(cli: &Cli) -> (Value, Vec<Violation>) {
         "roundtrip_values": n_round,
         "split_cases": n_splits,
         "raw_strings": n_raw,
+        "length_header_inputs": n_headers,
         "raw_reference_verdicts": verdicts,
         "samples": [
             {"value": format!("{:?}", vals[vals.len() / 2]), "bytes": String::from_utf8_lossy(&enc(&vals[vals.len() / 2]))},
